@@ -3,6 +3,8 @@
 package storage
 
 import (
+	"time"
+
 	"github.com/dgraph-io/badger/v3"
 
 	"github.com/emitter-io/emitter/internal/message"
@@ -94,4 +96,64 @@ func post_lookup_guard(q lookupQuery) bool {
 
 func post_lookup_limit(q lookupQuery, cur_matches message.Frame) bool {
 	return len(cur_matches) <= vs.TraceCount("loadMessage") && (len(cur_matches) == 0 || len(cur_matches) <= q.Limit)
+}
+
+// ---------------------------------------------------------------------------------------------------------
+// Writing to history (property C07): "it is stored once, under the publisher's contract and channel, with the
+// requested ttl (retain meaning the configured retention period)". Store replaces the retention marker by the
+// configured period, leaves any other ttl alone, and hands exactly this one message to storeFrame, once; the
+// entry written for a message has the message id as key, the encoded message as value and the message's expiry
+// (id time + ttl: Message.Expires) as its expiry; every entry of the frame is written once, in order.
+
+//@ assume (*SSD).storeFrame iface
+//@ assume (*github.com/emitter-io/emitter/internal/message.Message).Encode iface
+//@ assume (*github.com/emitter-io/emitter/internal/message.Message).Expires iface
+
+// @ verify (*SSD).Store pre=pre_SSD_Store post=post_SSD_Store_ttl,post_SSD_Store_once props=C07
+func pre_SSD_Store(s *SSD, m *message.Message) bool { return s != nil && m != nil }
+func post_SSD_Store_ttl(s *SSD, m *message.Message, old_m message.Message) bool {
+	if old_m.TTL == message.RetainedTTL {
+		return m.TTL == s.retain
+	}
+	return m.TTL == old_m.TTL
+}
+func post_SSD_Store_once(s *SSD, m *message.Message, res0 error) bool {
+	f := vs.TraceFind("storeFrame")
+	if f < 0 || vs.TraceLen() != 1 {
+		return false
+	}
+	fr := vs.TraceArg[message.Frame](f, 1)
+	return len(fr) == 1 && fr[0].TTL == m.TTL && specSameBytesView(fr[0].ID, m.ID) && specSameBytesView(fr[0].Channel, m.Channel) &&
+		specSameBytesView(fr[0].Payload, m.Payload) && res0 == vs.TraceRet[error](f, 0)
+}
+func specSameBytesView(a, b []byte) bool {
+	return len(a) == len(b) && (len(a) == 0 || vs.OffsetIn(a, b) == 0)
+}
+
+// encodeFrame, for the one-message frames Store builds (the loop is explored for up to two messages: bounded)
+// @ verify encodeFrame pre=pre_encodeFrame post=post_encodeFrame props=C07
+// @ loop encodeFrame 0 unroll 2 bounded
+func pre_encodeFrame(msgs message.Frame) bool { return len(msgs) <= 1<<20 }
+func post_encodeFrame(msgs message.Frame, res0 []*badger.Entry) bool {
+	n := vs.TraceCount("Message).Encode")
+	return len(res0) == n && len(msgs) == n && vs.TraceCount("Message).Expires") == n && vs.TraceCount("Time).Unix") == n &&
+		vs.Forall(0, n, func(k int) bool {
+			e, x, u := vs.TraceFindNth("Message).Encode", k), vs.TraceFindNth("Message).Expires", k), vs.TraceFindNth("Time).Unix", k)
+			return res0[k] != nil && specSameBytesView(res0[k].Key, msgs[k].ID) &&
+				vs.SameBytes(res0[k].Value, vs.TraceRet[[]byte](e, 0)) &&
+				x < u && vs.TraceArg[time.Time](u, 0) == vs.TraceRet[time.Time](x, 0) && res0[k].ExpiresAt == uint64(vs.TraceRet[int64](u, 0)) &&
+				specSameBytesView(vs.TraceArg[*message.Message](e, 0).ID, msgs[k].ID) && specSameBytesView(vs.TraceArg[*message.Message](x, 0).ID, msgs[k].ID) &&
+				vs.TraceArg[*message.Message](x, 0).TTL == msgs[k].TTL
+		})
+}
+
+// the write transaction: one SetEntry per entry, in order, nothing else
+// @ verify (*SSD).storeFrame$1 pre=pre_storeFrame_tx post=post_storeFrame_tx props=C07
+// @ loop (*SSD).storeFrame$1 0 unroll 2 bounded
+func pre_storeFrame_tx(tx *badger.Txn, encoded []*badger.Entry) bool { return tx != nil }
+func post_storeFrame_tx(tx *badger.Txn, encoded []*badger.Entry, res0 error) bool {
+	n := vs.TraceCount("Txn).SetEntry")
+	return n == len(encoded) && n == vs.TraceLen() && res0 == nil && vs.Forall(0, n, func(k int) bool {
+		return vs.TraceArg[*badger.Entry](k, 1) == encoded[k]
+	})
 }
